@@ -30,10 +30,11 @@ const (
 	lkRefreshPresent
 	lkBulkGetMiss
 	lkBulkRefreshPresent
+	lkGetExpired // the key holds an entry that has expired and was not swept: Get misses and loads
 	numLoadKinds
 )
 
-var loadKindNames = []string{"Get(absent)", "Get(stale->reload)", "Refresh(absent)", "Refresh(present)", "BulkGet(absent)", "BulkRefresh(present)"}
+var loadKindNames = []string{"Get(absent)", "Get(stale->reload)", "Refresh(absent)", "Refresh(present)", "BulkGet(absent)", "BulkRefresh(present)", "Get(expired, unswept)"}
 
 const (
 	wkSet = iota
@@ -120,7 +121,7 @@ func runScenario(s scenario) (out scenOut) {
 		}
 	}
 	var clk *phaseClock
-	if s.Expire {
+	if s.Expire || s.Load == lkGetExpired {
 		clk = &phaseClock{tick: make(chan time.Time)}
 		clk.now.Store(1_000_000_000)
 		o.Clock = clk
@@ -152,6 +153,10 @@ func runScenario(s scenario) (out scenOut) {
 		}))
 	}
 	wg.Wait()
+	if s.Load == lkGetExpired {
+		c.Set(k, v0)
+		clk.now.Add(int64(2 * time.Minute)) // the entry has expired; nothing sweeps it
+	}
 	if present {
 		c.Set(k, v0)
 		if clk != nil {
@@ -185,7 +190,7 @@ func runScenario(s scenario) (out scenOut) {
 	go func() {
 		defer close(done)
 		switch s.Load {
-		case lkGetMiss, lkGetStale:
+		case lkGetMiss, lkGetStale, lkGetExpired:
 			gotV, gotErr = c.Get(ctx, k, ld)
 		case lkRefreshAbsent, lkRefreshPresent:
 			if ch := c.Refresh(ctx, k, ld); ch != nil {
@@ -251,7 +256,7 @@ func runScenario(s scenario) (out scenOut) {
 		wantPresent, wantV = true, vS
 	}
 	expire := func() {
-		if clk != nil {
+		if clk != nil && s.Expire {
 			clk.now.Add(int64(2 * time.Minute)) // the written entry's deadline passes; nothing sweeps it
 		}
 	}
@@ -299,11 +304,11 @@ func runScenario(s scenario) (out scenOut) {
 	out.effective = inserted.Load()
 	e, ok := c.GetEntryQuietly(k)
 	if s.NotFound {
-		if s.Load == lkGetMiss && !errors.Is(gotErr, otter.ErrNotFound) {
+		if (s.Load == lkGetMiss || s.Load == lkGetExpired) && !errors.Is(gotErr, otter.ErrNotFound) {
 			out.violation = fmt.Sprintf("the waiting Get did not receive the not-found result: got (%d,%v)", gotV, gotErr)
 			return
 		}
-	} else if (s.Load == lkGetMiss) && (gotErr != nil || gotV != vL) {
+	} else if (s.Load == lkGetMiss || s.Load == lkGetExpired) && (gotErr != nil || gotV != vL) {
 		out.violation = fmt.Sprintf("the waiting Get did not receive the loaded value: got (%d,%v)", gotV, gotErr)
 		return
 	}
